@@ -89,6 +89,13 @@ func With(n int) int { return n }
 
 type Key struct{ N int }
 `},
+	// a one-element import path whose package is named differently
+	{Key: "H", ImportPath: "rootlib", PkgPath: "rootlib", Name: "rl", Src: `package rl
+
+func Root() int { return 7 }
+
+type RT struct{ R int }
+`},
 }
 
 // Snippet is a declaration that uses some libraries. Q(key) is replaced by the qualifier the file
@@ -110,6 +117,7 @@ var Snippets = []Snippet{
 	{[]string{"E"}, "func e${N}() int {\n\to := ${E}Opt{On: true}\n\t_ = o\n\treturn ${E}Bar()\n}"},
 	{[]string{"F"}, "func f${N}() int {\n\treturn ${F}Baz()\n}"},
 	{[]string{"G"}, "func g${N}() int {\n\tk := ${G}Key{N: 1}\n\treturn ${G}With(k.N)\n}"},
+	{[]string{"H"}, "func h${N}() int {\n\tv := ${H}RT{R: ${H}Root()}\n\treturn v.R\n}"},
 	{[]string{"A", "B"}, "func ab${N}() int {\n\treturn ${A}F(${B}F2())\n}"},
 	{[]string{"A", "C"}, "var ac${N} = map[${C}K]${A}T{${C}One: {X: 1}}"},
 	{nil, "func local${N}() int {\n\tx := len(\"abc\")\n\tvar y int = x\nL:\n\tfor y > 0 {\n\t\ty--\n\t\tcontinue L\n\t}\n\treturn y + helper()\n}"},
